@@ -426,7 +426,7 @@ def finish(res, tier, seed, t0, level='proof'):
         found = None
         if res.search is not None:
             try:
-                found = res.search('thorough')
+                found = res.search(tier)   # the search is sized by the tier: minutes in quick, the full budget in thorough
             except Exception as e:  # the search itself must not hide the broken proof
                 res.notes.append('search failed: %r' % (e,))
         path = rdir / ('broken_%s_%d.json' % (tier, seed))
